@@ -316,6 +316,7 @@ func runC06(c *core.Ctx) {
 				}
 			}
 			c.Check(len(problems) == 0, "R6.3", k3, pos, "opaque registered with the request's own channel and advanced per write", strings.Join(problems, "; "))
+			checkRepliesCounted(c, pv, ser, loops, ins, rt)
 		})
 		for rt := range reqTypeWriter {
 			if !seenCase[rt] {
@@ -400,6 +401,14 @@ func runC06(c *core.Ctx) {
 	checkReplyChannelPerAttempt(c, "R6.6")
 	c.Rule("R6.7", "the request rebuilt for a retry asks for every key still owed (shared with C13): one reply per requested key", 1)
 	checkRebuildKeepsEveryEntry(c, "R6.7")
+	c.Rule("R6.10", "the table of replies still owed is a multiset (populated by counting): an entry is deleted only when its count is one, otherwise decremented (shared with C13)", 2)
+	checkOwedMultiset(c, "R6.10")
+	c.Rule("R6.9", "the table recovery consults loses a reply's entry only when that reply is handed over (shared with C13): otherwise a connection cut inside a reply's body ends the call with the zero response - an empty hit, success - instead of an error", 2)
+	if rd := findFunc(c, relBatched, "(*conn).reader", rolePoolReader); rd != nil {
+		checkBookkeepingAtHandOver(c, "R6.9", rd)
+	} else {
+		c.Undecided("R6.9", "reader#bookkeeping-at-hand-over", "-", "reader not found")
+	}
 	c.Share(map[string]string{"R14.3": "R6.8"}, runC14) // a batch buffer used after it went back to the pool is overwritten by another connection's batch: callers' commands reach the backend as someone else's
 	c.Rule("R6.5", "state that suppresses hand-back in the retrying multi-key functions (the 'this attempt failed' flag) is reset for every attempt: it is never carried from one retry into the next", 2)
 	for _, fn := range submitters(c) {
@@ -667,4 +676,102 @@ func runR64(c *core.Ctx, rd *ssa.Function) {
 		return
 	}
 	c.Check(len(bad) == 0, "R6.4", key, c.P.Pos(dec.Pos()), fmt.Sprintf("%d sends in the error-status region carry the decoded error or are guarded by the reply opcode", n), strings.Join(bad, "; "), bad...)
+}
+
+// checkRepliesCounted (R6.3, per case): the number recorded in channels[req.reschan] for a request equals the number of
+// commands written for it - every command the serialiser writes is a non-quiet opcode and is answered, and recovery uses
+// the count to know whether the caller still waits. One command outside a loop => the constant 1; commands written in a
+// loop over a slice => len of that slice, or a counter incremented in the block of the write.
+func checkRepliesCounted(c *core.Ctx, pv *ssax.Prov, ser *ssa.Function, loops []*ssax.Loop, write ssa.Instruction, rt string) {
+	key := "batchIntoBuffer#reply-count:" + rt
+	var upd *ssa.MapUpdate
+	hit, trail := (ssax.Reach{Target: func(i ssa.Instruction) bool {
+		mu, ok := i.(*ssa.MapUpdate)
+		return ok && types.TypeString(mu.Value.Type(), nil) == "int" && ssax.All(pv.Sources(mu.Key), func(s ssax.Src) bool { return s.Kind == "param" && s.PathIs("[]", "reschan") })
+	}}).From(write)
+	if hit == nil {
+		c.Violate("R6.3", key, c.P.Pos(write.Pos()), "after this command is written no reply count is recorded for the request's channel")
+		return
+	}
+	upd = hit.(*ssa.MapUpdate)
+	v := upd.Value
+	for {
+		phi, ok := v.(*ssa.Phi)
+		if !ok {
+			break
+		}
+		// the operand for the path the write takes into the phi's block
+		var pred *ssa.BasicBlock
+		for i, b := range trail {
+			if b == phi.Block() && i > 0 {
+				pred = trail[i-1]
+			}
+		}
+		if pred == nil {
+			break
+		}
+		nv := ssax.PhiOperand(phi, pred)
+		if nv == nil || nv == v {
+			break
+		}
+		v = nv
+	}
+	// the per-request loop is the outermost loop containing the write; an inner one means one command per element
+	var inner *ssax.Loop
+	for _, l := range loops {
+		if l.Blocks[write.Block()] && !l.Blocks[upd.Block()] {
+			if inner == nil || len(l.Blocks) < len(inner.Blocks) {
+				inner = l
+			}
+		}
+	}
+	if inner == nil {
+		k, isConst := ssax.ConstInt(v)
+		c.Check(isConst && k == 1, "R6.3", key, c.P.Pos(upd.Pos()), "one command written, one reply expected",
+			"one command is written for the request but the number of replies recorded for its channel is "+v.String()+": recovery tells the wrong callers to retry (or blocks on a channel nobody reads)")
+		return
+	}
+	ok := false
+	why := "the number of replies recorded is " + v.String() + " (" + v.Name() + "), neither the length of the slice the commands are written for nor a counter advanced with every write"
+	if call, isCall := ssax.Unwrap(v).(*ssa.Call); isCall {
+		if b, isB := call.Call.Value.(*ssa.Builtin); isB && b.Name() == "len" {
+			want := strings.Join(ssax.Strings(pv.Sources(call.Call.Args[0])), ",")
+			// the loop bound: idx < len(S)
+			for _, ins := range inner.Header.Instrs {
+				if bo, isBO := ins.(*ssa.BinOp); isBO && bo.Op == token.LSS {
+					if lc, isLC := ssax.Unwrap(bo.Y).(*ssa.Call); isLC {
+						if bb, isBB := lc.Call.Value.(*ssa.Builtin); isBB && bb.Name() == "len" && strings.Join(ssax.Strings(pv.Sources(lc.Call.Args[0])), ",") == want {
+							ok = true
+						}
+					}
+				}
+			}
+			if !ok {
+				why = "the number of replies recorded is len(" + want + "), but the commands are written in a loop over another slice"
+			}
+		}
+	}
+	if !ok {
+		// a counter: phi in the inner loop's header whose back-edge value is phi+1 computed in the block of the write
+		for _, d := range ssax.Defs(v) {
+			if phi, isPhi := d.(*ssa.Phi); isPhi && phi.Block() == inner.Header {
+				for _, e := range phi.Edges {
+					if bo, isBO := e.(*ssa.BinOp); isBO && bo.Op == token.ADD && (bo.X == ssa.Value(phi) || bo.Y == ssa.Value(phi)) {
+						one := bo.Y
+						if bo.Y == ssa.Value(phi) {
+							one = bo.X
+						}
+						if k, isC := ssax.ConstInt(one); isC && k == 1 {
+							if bo.Block() == write.Block() {
+								ok = true
+							} else {
+								why = "the reply counter is advanced at " + c.P.Pos(bo.Pos()) + ", not with every command written (" + c.P.Pos(write.Pos()) + "): every command of the serialiser is answered, so each one must be counted"
+							}
+						}
+					}
+				}
+			}
+		}
+	}
+	c.Check(ok, "R6.3", key, c.P.Pos(upd.Pos()), "one reply expected per command written in the loop", why+": recovery skips a caller that still waits, which then takes the closed channel for the end of a complete answer")
 }
